@@ -22,7 +22,7 @@ RULE = ('systematic single-fault sweep: for each of the base scenarios '
 SHRINK_LISTS = [('faults',)]
 EXPECTED_PROBES = ['fault_before_connected', 'fault_after_ready',
                    'next_address_tried', 'all_addresses_tried',
-                   'socket_closed_only_by_gc', 'app_call_got_wse',
+                   'app_call_got_wse',
                    'fault_in_proxy_phase', 'fault_on_tls']
 
 
@@ -179,7 +179,6 @@ def _fault_list(b):
         faults.append({'refuse_mask': 1})
         faults.append({'refuse_mask': 1, 'how': 'timeout'})
         faults.append({'refuse_mask': 1, 'how': 'unreach'})
-        faults.append({'refuse_mask': 1, 'how': 'exc'})
         faults.append({'socket_fail_mask': 1})
     if sc['url'].startswith('wss'):
         faults.append({'tls_fail': 'handshake'})
@@ -365,10 +364,11 @@ def execute(case):
             res.bad(key + '/socket_left_open',
                     'socket %d still open and reachable after the iterator '
                     'finished; events %s' % (srec['sock'], names[-4:]))
-        elif srec['by_gc']:
+        elif srec['by_gc'] or not srec['closed']:
             gc_only += 1
-    if gc_only:
-        res.stats['probe:socket_closed_only_by_gc'] += 1
+            res.bad(key + '/socket_not_closed_by_library',
+                    'socket %d was dropped without close(); events %s' % (
+                        srec['sock'], names[-4:]))
     # ---- application calls only ever see WebSocketError
     for c in tr.calls:
         if c.outcome == 'raised':
